@@ -80,6 +80,9 @@ func build1005(typ int, station, itrf, ign1 uint64, x int64, ign2 uint64, y int6
 	return append(w.Buf, trailing...)
 }
 
+var c05Shared = make([]byte, 96)
+var c05Calls = 0
+
 func c05Call(w *tr.Writer, frame []byte, dec int, lv slog.Level, path, cls string) {
 	ev := c05Event{Raw: tr.Ints(frame), Dec: dec, Path: path, Cls: cls, Level: lv.String(), Tokens: []c05Tok{}}
 	ev.Panic = tr.Recover(func() {
@@ -87,6 +90,13 @@ func c05Call(w *tr.Writer, frame []byte, dec int, lv slog.Level, path, cls strin
 		var m6 *type1006.Message
 		var err error
 		if path == "decoder" {
+			// every second call hands the frame over in ONE buffer that is refilled in place (a reused read buffer):
+			// what is decoded is what the buffer holds now
+			c05Calls++
+			if c05Calls%2 == 0 && len(frame) <= len(c05Shared) {
+				n := copy(c05Shared, frame)
+				frame = c05Shared[:n]
+			}
 			if dec == 1005 {
 				m5, err = type1005.GetMessage(frame, lv)
 			} else {
